@@ -919,6 +919,41 @@ scpi_bool_t SCPI_ParamToUInt64(scpi_t * context, scpi_parameter_t * parameter, u
 }
 
 /**
+ * IEEE 488.2 allows white space between mantissa and exponent and after the
+ * exponent letter ("1 E 3"), strtod() and strtof() stop at it. Provide the text
+ * of such a token without the white space.
+ * @param parameter decimal numeric token
+ * @param buf buffer for the copy
+ * @param buflen length of buf
+ * @return text to convert: buf, or the token itself if it needs no copy or does not fit
+ */
+static const char * numberWithoutWs(const scpi_parameter_t * parameter, char * buf, size_t buflen) {
+    int i;
+    size_t j = 0;
+
+    for (i = 0; i < parameter->len; i++) {
+        if (parameter->ptr[i] == ' ' || parameter->ptr[i] == '\t') {
+            break;
+        }
+    }
+    if (i >= parameter->len) {
+        return parameter->ptr;
+    }
+
+    for (i = 0; i < parameter->len; i++) {
+        if (parameter->ptr[i] == ' ' || parameter->ptr[i] == '\t') {
+            continue;
+        }
+        if (j + 1 >= buflen) {
+            return parameter->ptr;
+        }
+        buf[j++] = parameter->ptr[i];
+    }
+    buf[j] = '\0';
+    return buf;
+}
+
+/**
  * Convert parameter to float (32 bit)
  * @param context
  * @param parameter
@@ -928,6 +963,7 @@ scpi_bool_t SCPI_ParamToUInt64(scpi_t * context, scpi_parameter_t * parameter, u
 scpi_bool_t SCPI_ParamToFloat(scpi_t * context, scpi_parameter_t * parameter, float * value) {
     scpi_bool_t result;
     uint32_t valint;
+    char buf[64];
 
     if (!value) {
         SCPI_ErrorPush(context, SCPI_ERROR_SYSTEM_ERROR);
@@ -943,7 +979,7 @@ scpi_bool_t SCPI_ParamToFloat(scpi_t * context, scpi_parameter_t * parameter, fl
             break;
         case SCPI_TOKEN_DECIMAL_NUMERIC_PROGRAM_DATA:
         case SCPI_TOKEN_DECIMAL_NUMERIC_PROGRAM_DATA_WITH_SUFFIX:
-            result = strToFloat(parameter->ptr, value) > 0 ? TRUE : FALSE;
+            result = strToFloat(numberWithoutWs(parameter, buf, sizeof (buf)), value) > 0 ? TRUE : FALSE;
             break;
         default:
             result = FALSE;
@@ -961,6 +997,7 @@ scpi_bool_t SCPI_ParamToFloat(scpi_t * context, scpi_parameter_t * parameter, fl
 scpi_bool_t SCPI_ParamToDouble(scpi_t * context, scpi_parameter_t * parameter, double * value) {
     scpi_bool_t result;
     uint64_t valint;
+    char buf[64];
 
     if (!value) {
         SCPI_ErrorPush(context, SCPI_ERROR_SYSTEM_ERROR);
@@ -976,7 +1013,7 @@ scpi_bool_t SCPI_ParamToDouble(scpi_t * context, scpi_parameter_t * parameter, d
             break;
         case SCPI_TOKEN_DECIMAL_NUMERIC_PROGRAM_DATA:
         case SCPI_TOKEN_DECIMAL_NUMERIC_PROGRAM_DATA_WITH_SUFFIX:
-            result = strToDouble(parameter->ptr, value) > 0 ? TRUE : FALSE;
+            result = strToDouble(numberWithoutWs(parameter, buf, sizeof (buf)), value) > 0 ? TRUE : FALSE;
             break;
         default:
             result = FALSE;
